@@ -204,6 +204,14 @@ def check_c15(tier, seed):
                 for v in m['rep'][2:]:
                     if isinstance(v, Opaque):
                         pass
+            # the converter never produces a mapping that lists a key twice in its from / to list
+            for m in maps:
+                for fld in ('frm', 'to'):
+                    for k in m[fld]:
+                        if isinstance(k, str):
+                            for o in m[fld]:
+                                if not isinstance(o, str):
+                                    it.keys.assert_lit(k, o, False)
             lay = basic_layout_val(maps)
             r = it.run(f_ser, [Ref(Cell(lay)), Adt('ValueSerializer', None, [])])
             if r.variant != 'Ok':
